@@ -399,6 +399,13 @@ func Elevate(f *filter.Filter) *com.Packet {
 //	        uint8   // End Min
 //	    }
 func Duration(d time.Duration, j int) *com.Packet {
+	switch {
+	case j == -1:
+	case j < 0:
+		j = 0
+	case j > 100:
+		j = 100
+	}
 	n := &com.Packet{ID: MvTime}
 	n.WriteUint16(uint16(j & 0xFF))
 	n.WriteInt64(int64(d))
